@@ -125,11 +125,13 @@ namespace bxdecay0 {
     // Output files for configuration informations and generated decay events:
     std::string info_filename  = basename + ".d0c";
     std::string event_filename = basename + ".d0t";
+    // The companion file is (re)created first: a completion marker left by a previous run
+    // with the same basename must be gone before the events file is truncated.
+    std::ofstream finfo(info_filename.c_str());
+    finfo.precision(15);
     std::ofstream fevent(event_filename.c_str());
     fevent.precision(15);
     uint32_t store_flags = bxdecay0::event::STORE_EVENT_TIME;
-    std::ofstream finfo(info_filename.c_str());
-    finfo.precision(15);
      
     decay0.initialize(prng);
     if (use_specific_erange) {
